@@ -7,6 +7,7 @@ import (
 	"time"
 
 	"github.com/bmeg/grip/config"
+	"github.com/bmeg/grip/gdbi"
 	"github.com/bmeg/grip/gripper"
 	"github.com/bmeg/grip/gripql"
 	"github.com/bmeg/grip/log"
@@ -50,7 +51,7 @@ func (server *GripServer) getGraph(graph string) (*gripql.Graph, error) {
 }
 
 func (server *GripServer) buildSchemas(ctx context.Context) {
-	for _, gdb := range server.dbs {
+	for _, gdb := range server.listDBs() {
 		for _, name := range gdb.ListGraphs() {
 			select {
 			case <-ctx.Done():
@@ -60,7 +61,7 @@ func (server *GripServer) buildSchemas(ctx context.Context) {
 				if isSchema(name) {
 					continue
 				}
-				if _, ok := server.schemas[name]; ok {
+				if _, ok := server.getCachedSchema(name); ok {
 					log.WithFields(log.Fields{"graph": name}).Debug("skipping build; cached schema found")
 					continue
 				}
@@ -72,7 +73,7 @@ func (server *GripServer) buildSchemas(ctx context.Context) {
 					if err != nil {
 						log.WithFields(log.Fields{"graph": name, "error": err}).Error("failed to store graph schema")
 					}
-					server.schemas[name] = schema
+					server.setCachedSchema(name, schema)
 				} else {
 					log.WithFields(log.Fields{"graph": name, "error": err}).Error("failed to build graph schema")
 				}
@@ -107,7 +108,8 @@ func (server *GripServer) updateGraphMap() {
 	for k, v := range server.conf.Graphs {
 		o[k] = v
 	}
-	for n, dbs := range server.dbs {
+	started := map[string]gdbi.GraphDB{}
+	for n, dbs := range server.listDBs() {
 		for _, g := range dbs.ListGraphs() {
 			o[g] = n
 			if strings.HasSuffix(g, "__mapping__") {
@@ -119,7 +121,7 @@ func (server *GripServer) updateGraphMap() {
 					gdb, err := StartDriver(config.DriverConfig{Gripper: &gripper.Config{Graph: graphName, Mapping: mapping}}, server.sources)
 					if err == nil {
 						driverName := fmt.Sprintf("%s__driver__", graphName)
-						server.dbs[driverName] = gdb
+						started[driverName] = gdb
 						o[graphName] = driverName
 					} else {
 						log.Errorf("Failed to start gripper: %s", graphName)
@@ -130,7 +132,12 @@ func (server *GripServer) updateGraphMap() {
 			}
 		}
 	}
+	server.mu.Lock()
+	for driverName, gdb := range started {
+		server.dbs[driverName] = gdb
+	}
 	server.graphMap = o
+	server.mu.Unlock()
 }
 
 func (server *GripServer) addFullGraph(ctx context.Context, graphName string, schema *gripql.Graph) error {
